@@ -220,7 +220,9 @@ class IdleMomentsGauge:
 
         return circuits.Circuit.from_moments(
             *(
-                list(sq.values()) + nsq
-                for sq, nsq in zip(single_qubit_moments, non_single_qubit_moments, strict=True)
+                circuits.Moment(list(sq.values()) + nsq, tags=moment.tags)
+                for sq, nsq, moment in zip(
+                    single_qubit_moments, non_single_qubit_moments, circuit, strict=True
+                )
             )
         )
